@@ -226,7 +226,7 @@ func c13Exec(c *fw.Ctx, be string, nmsgs int, seq []int, checkAll bool) (key str
 			}
 			if line == "QUIT !noread" {
 				log = append(log, "C: QUIT   [and hangs up without reading the answer]")
-				_ = k.Send("QUIT")
+				_ = k.SendAndVanish("QUIT")
 				ended = true
 				if inTxn {
 					quitInTxn = true
